@@ -154,6 +154,7 @@ def _h_deepcopy(interp, args, kwargs, st, node):
 def _interp(repo, modname, cls, inline_self=False, decide=None, extra_hooks=None):
     hooks = dict(LAYOUT_HOOKS)
     hooks['deepcopy'] = _h_deepcopy
+    hooks['copy'] = _h_deepcopy      # attribute-level analysis: a shallow copy starts with the same attribute values
     if extra_hooks:
         hooks.update(extra_hooks)
     it = Interp(repo, modname, hooks=hooks, self_cls=cls, decide=decide, max_depth=4)
@@ -250,7 +251,7 @@ CLEAR_OK = (None, b'', '', False, 0)
     mut.drop_stmt('keys', 'HDKey.public', 'hdkey.private_byte = None', 'HDKey.public: private_byte survives'),
     mut.replace_stmt('keys', 'Key.wif', 'self._wif_prefix = versionbyte', 'self._wif_prefix = versionbyte\nself._last_wif = self._wif', 'new cache attribute _last_wif filled by wif()'),
     mut.drop_stmt('wallets', 'WalletKey.public', 'pub_key.key_private = None', 'WalletKey.public: key_private survives'),
-    mut.drop_stmt('wallets', 'WalletKey.public', 'self._dbkey = None', 'WalletKey.public: DbKey row (private, wif) survives'),
+    mut.drop_stmt('wallets', 'WalletKey.public', 'pub_key._dbkey = None', 'WalletKey.public: DbKey row (private, wif) survives'),
     mut.replace_expr('wallets', 'WalletKey.public', 'self.key().wif()', 'self.key().wif(is_private=True)', 'WalletKey.public: wif replaced by the private wif'),
 ])
 def public_clears(ctx):
